@@ -692,6 +692,15 @@ class LabReplay:
                             return
         if isinstance(o, pp.Plate):
             self.check_plate_observers(ctx, n, o, mcs, key)
+        # the set of substances of every single well / container, asked AFTER the plate-level observers
+        for i, c in enumerate(wells):
+            got = set(c.get_substances())
+            keys = set(c.contents.keys())
+            present = {s_ for s_, x in c.contents.items() if abs(x) > 1e-9}
+            if not (present <= got <= keys):
+                self.report("C10", "container_get_substances", key,
+                            f"{out.call}: {n} well {i + 1}: get_substances() = {sorted(x.name for x in got)}, contents hold {sorted(x.name for x in keys)}", ev, ctx["pre_key"])
+                return
 
     def check_plate_observers(self, ctx, n, o, mcs, key):
         ev, out, inst, pp = ctx["ev"], ctx["out"], self.inst, self.pp
